@@ -99,12 +99,11 @@ pub fn judge(c: &Case) -> Verdict {
     // a quarter of the cases are preceded, on the same thread, by rejected inputs that fail only
     // after a well-formed prefix of the same keyword (the message must not depend on earlier calls)
     if stable_hash(&c.input) % 4 == 0 {
-        if let Some(k) = &c.keyword {
-            for junk in ["5x", "10k%", "f5", "u+x,", "'a'b"] {
-                let _ = catch(|| parse(&format!("{k} {junk}")).map(|_| ()).map_err(|e| e.to_string()));
-            }
-        }
         let _ = catch(|| parse("-true -bogus").map(|_| ()).map_err(|e| e.to_string()));
+        if let Some(k) = &c.keyword {
+            let junk = ["5x", "10k%", "f5", "u+x,", "'a'b"][(stable_hash(&c.input) / 4 % 5) as usize];
+            let _ = catch(|| parse(&format!("{k} {junk}")).map(|_| ()).map_err(|e| e.to_string()));
+        }
     }
     let r = match catch(|| parse(&c.input)) {
         Ok(r) => r,
